@@ -53,13 +53,21 @@ Full(d, gs) ==
   LET g == d.named[gs.open.k] IN
   /\ \A m \in NamedMembers(g) : m.id \in FilledIds(gs)
   /\ Len(gs.open.words) = Len(PosMembers(g))
+\* a member of the open block holds a value that fails conversion or its guard
+BlockBad(d, gs) ==
+  LET g == d.named[gs.open.k] IN
+  \/ \E i \in DOMAIN gs.open.filled : \E m \in NamedMembers(g) :
+        m.id = gs.open.filled[i].id /\ m.kind = "arg" /\ BadValue(m, gs.open.filled[i].v)
+  \/ \E j \in DOMAIN gs.open.words : ConvBad(PosMembers(g)[j].vt, gs.open.words[j])
+\* `cut` remembers the first adjacent subcommand whose block cannot stand (cut short, or holding an invalid value)
 Close(d, gs) ==
   IF gs.open.k = 0 THEN gs
-  ELSE IF Complete(d, gs)
+  ELSE LET cmdk == IF d.named[gs.open.k].head.kind = "cmd" THEN gs.open.k ELSE 0 IN
+       IF Complete(d, gs)
        THEN [gs EXCEPT !.blocks[gs.open.k] = Append(@, [filled |-> gs.open.filled, words |-> gs.open.words]),
-                       !.open = NoOpen]
-       ELSE [GKill(gs, "block_cut") EXCEPT !.open = NoOpen,
-                                            !.cut = IF @ = 0 /\ d.named[gs.open.k].head.kind = "cmd" THEN gs.open.k ELSE @]
+                       !.open = NoOpen,
+                       !.cut = IF @ = 0 /\ BlockBad(d, gs) THEN cmdk ELSE @]
+       ELSE [GKill(gs, "block_cut") EXCEPT !.open = NoOpen, !.cut = IF @ = 0 THEN cmdk ELSE @]
 AutoClose(d, gs) == IF gs.open.k # 0 /\ Full(d, gs) THEN Close(d, gs) ELSE gs
 
 GAcc(gs, id, v)  == [gs EXCEPT !.acc[id] = Append(@, [v |-> v, p |-> gs.n])]
@@ -184,8 +192,8 @@ BranchAttempt(br, R, envv, acc0) ==
   LET A == [j \in DOMAIN br.fields |-> LeafAttempt(br.fields[j], R, envv, acc0)]
       used == UNION {A[j].used : j \in DOMAIN A}
       lefts == {A[j].left : j \in {j \in DOMAIN A : A[j].used # {}}} IN
-  [res |-> IF \E j \in DOMAIN A : A[j].res = "hard" THEN "hard"
-          ELSE IF \E j \in DOMAIN A : A[j].res = "miss" THEN "miss" ELSE "ok",
+  \* the members are evaluated in declaration order and the first one that fails decides how the branch fails
+  [res |-> LET bad == {j \in DOMAIN A : A[j].res # "ok"} IN IF bad = {} THEN "ok" ELSE A[MinOf(bad)].res,
    used |-> used, left |-> IF lefts = {} THEN 0 ELSE MinOf(lefts),
    allof |-> UNION {IF A[j].all THEN A[j].used ELSE {} : j \in DOMAIN A},
    v |-> IF Len(br.fields) = 1 THEN A[1].v ELSE [t |-> [j \in DOMAIN A |-> A[j].v]]]
@@ -361,7 +369,7 @@ GMustOffer(d, gs, p) ==
               ELSE {} : k \in DOMAIN d.named}
 GPartials(d) ==
   {[k |-> "fresh"], [k |-> "dash"], [k |-> "long", cs |-> <<>>]}
-  \cup UNION {{[k |-> "long", cs |-> SubSeq(it.lchars[1], 1, n)] : n \in {1, Len(it.lchars[1]) - 1} \ {0}} : it \in {x \in GLeaves(d) : x.longs # <<>>}}
+  \cup UNION {{[k |-> "long", cs |-> SubSeq(it.lchars[1], 1, n)] : n \in {1, Len(it.lchars[1]) - 1, Len(it.lchars[1])} \ {0}} : it \in {x \in GLeaves(d) : x.longs # <<>>}}
   \cup {[k |-> "short", s |-> it.shorts[1]] : it \in {x \in GLeaves(d) : x.shorts # <<>>}}
 GViable(d, gs) ==
   /\ gs.dead = "" /\ ~gs.help /\ ~gs.posOnly
